@@ -18,6 +18,7 @@
 
 #include <cmath>
 #include <memory>
+#include <map>
 #include <set>
 #include <sstream>
 
@@ -33,7 +34,8 @@ const char *k_valid_tmpl[] = {"harm_fixed", "harm_cmove", "harm_kmove", "harm_cs
                               "histogram", "abmd", "abf", "opes", "alb", "harm_ti"};
 
 const char *k_bad_values[] = {"0", "-1", "-0.5", "1", "1e308", "-1e308", "1e-320", "nan", "inf", "-inf", "2147483647", "2147483648", "-2147483649", "99999999999999999999",
-                              "1e10", "abc", "", "1 2 3 4 5 6 7 8 9", "0 0", "-3 7", "1e-9", "4294967296", "0.0000001", "on", "{ }"};
+                              "1e10", "abc", "", "1 2 3 4 5 6 7 8 9", "0 0", "-3 7", "1e-9", "4294967296", "0.0000001", "on", "{ }",
+                              "1e999", "-1e999", "1e-999", "0x10", "1e", "--1", "1.5.2"};
 
 // extra keywords per block kind, to be given a bad value
 const char *k_cv_keys[] = {"width", "lowerBoundary", "upperBoundary", "timeStepFactor", "runAveLength", "runAveStride", "corrFuncLength", "corrFuncStride", "corrFuncOffset",
@@ -48,7 +50,9 @@ const char *k_bias_keys[] = {"timeStepFactor", "outputFreq", "historyFreq", "new
                              "adaptiveSigma", "adaptiveSigmaStride", "epsilon", "neighborList", "neighborListParameter", "pmfHistoryFrequency", "multipleReplicas", "replicaID",
                              "replicasRegistry", "replicaUpdateFrequency", "rebinGrids", "writeHillsTrajectory", "keepHills", "inputPrefix", "updateFrequency", "couplingRange", "rateMax",
                              "forceRange", "integrate", "integrateTol", "integrateMaxIterations", "UIestimator", "CZARestimator", "zeroMeanForce", "bypassExtendedLagrangian", "firstStep",
-                             "decoupling", "colvars", "gatherVectorColvars", "scaledBiasingForce", "scaledBiasingForceFactorsGrid", "ebMeta", "targetDistFile", "targetDistMinVal"};
+                             "decoupling", "colvars", "gatherVectorColvars", "scaledBiasingForce", "scaledBiasingForceFactorsGrid", "ebMeta", "targetDistFile", "targetDistMinVal",
+                             "biasfactor", "barrier", "kernelCutoff", "compressionThreshold", "gaussianSigma", "gaussianSigmaMin", "adaptiveSigmaStride", "neighborListParameters", "printTrajectoryFrequency",
+                             "sharedFreq", "lowerBoundary", "upperBoundary", "width", "refHistogram", "refHistogramFile", "writeHistogram", "targetEquilSteps", "lambdaExponent", "outputCenters"};
 const char *k_global_bad[] = {"colvarsTrajFrequency -1", "colvarsTrajFrequency 2147483648", "colvarsTrajFrequency abc", "colvarsRestartFrequency -7", "colvarsRestartFrequency nan",
                               "indexFile /simfs/w0/missing.ndx", "units bogus", "smp maybe", "colvarsTrajFrequency", "sourceTclFile missing.tcl", "scriptedColvarForces on",
                               "colvarsRestartFrequency 99999999999999999999", "defaultInputStateFile missing.state"};
@@ -72,6 +76,7 @@ bool is_keyval_line(std::string const &l, std::string &indent, std::string &key,
 std::string mutate(std::string const &valid, Rng &r, bool is_cv, int natoms, std::string &label) {
   std::vector<std::string> L = split_lines(valid);
   std::string bad = k_bad_values[r.below(sizeof k_bad_values / sizeof *k_bad_values)];
+  if (r.chance(0.08)) { static const char *lit[] = {"1e999", "-1e999", "1e-999", "99999999999999999999", "1e308"}; bad = lit[r.below(5)]; }   // literals no number type can hold
   for (int attempt = 0; attempt < 20; attempt++) {
     double u = r.unit();
     if (u < 0.45) {
@@ -122,6 +127,26 @@ std::string mutate(std::string const &valid, Rng &r, bool is_cv, int natoms, std
         }
       } else {
         key = k_bias_keys[r.below(sizeof k_bias_keys / sizeof *k_bias_keys)];
+        // half of the time a keyword that belongs to this type of bias (so that every (type, keyword, bad value) triple has a fair chance)
+        {
+          static const std::map<std::string, std::vector<const char *>> own = {
+            {"opes_metad", {"biasfactor", "barrier", "kernelCutoff", "compressionThreshold", "gaussianSigma", "gaussianSigmaMin", "adaptiveSigma", "adaptiveSigmaStride", "neighborList", "neighborListParameters",
+                            "printTrajectoryFrequency", "newHillFrequency", "epsilon", "explore", "fixedGaussianSigma", "pmf", "pmfColvars", "pmfHistoryFrequency", "calcWork", "noZed", "recursiveMerge"}},
+            {"metadynamics", {"hillWeight", "hillWidth", "gaussianSigmas", "newHillFrequency", "gridsUpdateFrequency", "biasTemperature", "wellTempered", "useGrids", "rebinGrids", "keepHills", "writeHillsTrajectory",
+                              "writeFreeEnergyFile", "keepFreeEnergyFiles", "ebMeta", "ebMetaEquilSteps", "targetDistFile", "targetDistMinVal", "multipleReplicas", "replicaUpdateFrequency", "expandBoundaries"}},
+            {"abf", {"fullSamples", "minSamples", "maxForce", "applyBias", "hideJacobian", "historyFreq", "outputFreq", "shared", "sharedFreq", "integrate", "integrateTol", "integrateMaxIterations", "pABFintegrateFreq",
+                     "updateBias", "inputPrefix", "writeCZARwindowFile", "CZARestimator", "UIestimator", "zeroMeanForce"}},
+            {"harmonic", {"forceConstant", "centers", "targetCenters", "targetForceConstant", "targetNumSteps", "targetNumStages", "targetEquilSteps", "lambdaExponent", "lambdaSchedule", "decoupling", "outputCenters",
+                          "outputAccumulatedWork", "writeTIPMF", "writeTISamples"}},
+            {"harmonicWalls", {"forceConstant", "lowerWalls", "upperWalls", "lowerWallConstant", "upperWallConstant", "targetForceConstant", "targetNumSteps", "targetNumStages", "lambdaExponent", "decoupling", "bypassExtendedLagrangian"}},
+            {"linear", {"forceConstant", "centers", "targetForceConstant", "targetNumSteps", "lambdaExponent"}},
+            {"alb", {"centers", "updateFrequency", "forceRange", "rateMax", "forceConstant"}},
+            {"abmd", {"forceConstant", "stoppingValue", "decreasing"}},
+            {"histogram", {"outputFreq", "outputFile", "outputFileDX", "gatherVectorColvars", "weights", "histogramGrid"}}};
+          std::string type = L[0].substr(0, L[0].find(' '));
+          auto it = own.find(type);
+          if (it != own.end() && r.chance(0.5)) key = it->second[r.below(it->second.size())];
+        }
         // the keywords every bias type shares (parsed by the base class before the derived class goes on) are drawn more often
         static const char *base_keys[] = {"timeStepFactor", "colvars", "scaledBiasingForceFactorsGrid", "outputFreq", "bypassExtendedLagrangian"};
         if (r.chance(0.25)) key = base_keys[r.below(5)];
@@ -313,7 +338,30 @@ J gen(uint64_t seed, bool thorough) {
       } else if (w < 0.92) {
         std::string t, n; std::string cfg = valid_bias(t, n);
         op["op"] = "bad"; op["name"] = n; op["what"] = "bias"; op["tmpl"] = t;
-        if (!exotic.empty() && r.chance(0.2)) {
+        if (!cvs.empty() && r.chance(0.12)) {
+          // bias types outside the shared catalogue, with degenerate geometry: a distribution restraint; multiple-walker set-ups with frequency zero
+          double u2 = r.unit(); std::string v0 = cvs[r.below(cvs.size())].name;
+          if (u2 < 0.5) {
+            static const char *lo_hi[][2] = {{"0", "4"}, {"4", "0"}, {"2", "2"}, {"0", "1e300"}, {"-1e300", "1e300"}, {"0", "4"}, {"0", "4"}};
+            static const char *wd[] = {"0.5", "0", "-1", "1e-300", "1e300", "0.5", "3.9"};
+            static const char *rh[] = {"1 1 1 1 1 1 1 1", "1 1", "", "0 0 0 0 0 0 0 0", "-1 1 -1 1 -1 1 -1 1", "1e308 1e308 1e308 1e308 1e308 1e308 1e308 1e308", "nan 1 1 1 1 1 1 1"};
+            size_t a = r.below(7), b = r.below(7), c = r.below(7);
+            op["tmpl"] = "histogram_restraint";
+            op["config"] = "histogramRestraint {\n  name " + n + "\n  colvars " + v0 + "\n  lowerBoundary " + lo_hi[a][0] + "\n  upperBoundary " + lo_hi[a][1] + "\n  width " + wd[b] +
+                           "\n  refHistogram " + rh[c] + "\n  forceConstant " + (r.chance(0.8) ? "2.0" : "-1") + (r.chance(0.3) ? "\n  gaussianSigma 0" : "") + (r.chance(0.3) ? "\n  writeHistogram on" : "") + "\n}\n";
+            label = std::string("histogramRestraint:") + lo_hi[a][0] + ".." + lo_hi[a][1] + "/" + wd[b] + "/" + std::to_string(c);
+          } else {
+            std::string t2, n2; std::string cfg2;
+            for (int tries = 0; tries < 20; tries++) { cfg2 = valid_bias(t2, n2); if (t2.compare(0, 4, "meta") == 0 || t2 == "opes") break; }
+            size_t q = cfg2.find("name " + n2); if (q != std::string::npos) cfg2.replace(q, 5 + n2.size(), "name " + n);
+            static const char *fr[] = {"0", "-1", "3", "0", "2147483648"};
+            std::string f1 = fr[r.below(5)], f2 = fr[r.below(5)];
+            size_t hf = cfg2.find("  newHillFrequency"); if (hf != std::string::npos && r.chance(0.5)) cfg2.replace(hf, cfg2.find('\n', hf) - hf, "  newHillFrequency " + f2);
+            cfg2.insert(cfg2.rfind("}"), std::string("  multipleReplicas on\n  replicaID w0\n") + (t2 == "opes" ? "  sharedFreq " + f1 + "\n" : "  replicasRegistry /simfs/shared/reg_" + n + ".txt\n  replicaUpdateFrequency " + f1 + "\n"));
+            size_t kh; while ((kh = cfg2.find("  keepHills on\n")) != std::string::npos) cfg2.erase(kh, 15);
+            op["tmpl"] = t2; op["config"] = cfg2; label = "multipleReplicas:" + t2 + ":freq=" + f1 + "/" + f2;
+          }
+        } else if (!exotic.empty() && r.chance(0.2)) {
           // a restraint on one of the catalogue-wide definitions above (which may or may not have been accepted), so that forces flow through it
           auto const &x = exotic[r.below(exotic.size())];
           std::string c = x.second == 3 ? "(1, 0, 0)" : x.second == 4 ? "(1, 0, 0, 0)" : num(std::round(r.uniform(0, 5) * 10) / 10);
